@@ -55,6 +55,7 @@ func (p *propC09) Gen(idx int) *Scenario {
 	if r.Chance(1, 4) {
 		n = r.Range(5, 8)
 	}
+	sharedOpt := r.Chance(1, 3)
 	shortPlans := []ReadPlan{{Tail: "k64"}, {Tail: "k13"}, {Tail: "k255"}, {Tail: "one"}, {Tail: "k4096"}}
 	var acc []string
 	for _, id := range hp.singles {
@@ -83,6 +84,13 @@ func (p *propC09) Gen(idx int) *Scenario {
 		}
 		if t.Repeat > 4 {
 			t.Repeat = 4
+		}
+		if sharedOpt && strings.HasPrefix(t.Call, "Decode") && t.Call != "DecodeHeader" && t.Call != "DecodeHeaderAndFileID" {
+			// one option value handed to concurrent calls (a package-level options slice)
+			t.Opts = []string{"unknownFields", "unknownMessages"}
+			t.SharedOpts = true
+		} else {
+			t.SharedOpts = false
 		}
 		sc.Tasks = append(sc.Tasks, t)
 	}
